@@ -14,6 +14,7 @@ open Io
 
 exception Fail of string
 exception Fuel
+exception Skip of string
 let fail fmt = Printf.ksprintf (fun s -> raise (Fail s)) fmt
 
 let fuel = nat_of_int 4000
@@ -43,7 +44,13 @@ let parse_rep (tok : string) : rep =
             let parts = split ':' tok in
             (match kind, parts with
              | "a", [_; cs; lo; hi; sa; sb] ->
-               Ok { tok; kind; v; lo = rat_of_dy_string lo; hi = rat_of_dy_string hi; f = Some (upoly_of_string cs);
+               let l = rat_of_dy_string lo and h = rat_of_dy_string hi in
+               (* the library's own invariant (lp_algebraic_number_construct): the interval is shorter than 1 and
+                  no integer lies strictly inside it - floor and ceiling are read off the end points *)
+               if not (q_le h (q_add_integer (q_floor l, z_of_int 1) (z_of_int 1))) then
+                 Error ("an integer lies strictly inside the isolating interval of " ^ tok)
+               else
+               Ok { tok; kind; v; lo = l; hi = h; f = Some (upoly_of_string cs);
                     sa = int_of_string sa; sb = int_of_string sb }
              | "a", _ -> Error ("algebraic representation without sign caches " ^ tok)
              | _ -> (match v with
@@ -228,6 +235,15 @@ let run (toks : string list) (cout : string list) : string =
     expect "init"; expect "|";
     let reps = ref (read_reps ()) in
     check_reps "initial pool" !reps;
+    (* floor / ceiling of copies of the starting pool that nothing else ever touches: at the start and at the end *)
+    let start_pool = Array.copy pool in
+    let check_untouched what =
+      Array.iteri (fun i (sl : slot) ->
+          let fo = next () in let co = next () in
+          let fe = rfloor sl and ce = string_of_z (some (rn_ceiling fuel sl.x)) in
+          if fo <> fe then fail "%s: floor of the untouched copy of starting slot %d is %s, reference %s" what i fo fe;
+          if co <> ce then fail "%s: ceiling of the untouched copy of starting slot %d is %s, reference %s" what i co ce) start_pool in
+    expect "|"; check_untouched "initial pool";
     (* ---- steps *)
     List.iter (fun optok ->
         incr step; cur_op := optok;
@@ -355,6 +371,14 @@ let run (toks : string list) (cout : string list) : string =
            let d = slot 1 and a = slot 2 and b = slot 3 in ignore (next ());
            let r = some ((match o with "add" -> rn_add | "sub" -> rn_sub | _ -> rn_mul) fuel pool.(a).x pool.(b).x) in
            pool.(d) <- fresh r; assigned := [d]; predict := None
+         | ["div"; _; _; _] ->
+           let d = slot 1 and a = slot 2 and b = slot 3 in ignore (next ());
+           if sg (rn_sgn pool.(b).x) = 0 then raise (Skip "division by zero");
+           pool.(d) <- fresh (some (rn_div fuel pool.(a).x pool.(b).x)); assigned := [d]; predict := None
+         | ["inv"; _; _] ->
+           let d = slot 1 and a = slot 2 in ignore (next ());
+           if sg (rn_sgn pool.(a).x) = 0 then raise (Skip "inverse of zero");
+           pool.(d) <- fresh (some (rn_inv fuel pool.(a).x)); assigned := [d]; predict := None
          | ["neg"; _; _] ->
            let d = slot 1 and a = slot 2 in ignore (next ());
            pool.(d) <- fresh (rn_neg pool.(a).x); assigned := [d]; predict := None
@@ -373,11 +397,28 @@ let run (toks : string list) (cout : string list) : string =
            obs_sign "lp_polynomial_sgn" e; predict := None; after_check := check_restored what before
          | ["pe"; _] ->
            let k = slot 1 in let o = next () in
+           let t1 = Sys.time () in
            let e = eval_ref (rho None) polys.(k) in
-           let r = parse_rep o in
-           if not (pval_holds e r.v) then fail "%s: lp_polynomial_evaluate gives %s, reference value %s" what o (show_pval e);
+           let t2 = Sys.time () in
+           (* a result with a huge defining polynomial (degree 16, hundreds of digits) is not Sturm-validated here - that is
+              the business of C10; it is only located: its interval must lie inside the reference enclosure *)
+           let huge = String.length o > 1500 in
+           let r = if not huge then parse_rep o else
+               (match split ':' o with
+                | ["a"; cs; lo; hi; _; _] ->
+                  let l = rat_of_dy_string lo and h = rat_of_dy_string hi in
+                  { tok = o; kind = "a"; v = RA (upoly_of_string cs, l, h); lo = l; hi = h; f = None; sa = 0; sb = 0 }
+                | _ -> parse_rep o) in
+           let t3 = Sys.time () in
+           let ok = if not huge then pval_holds e r.v else
+               (match e with
+                | Exact x -> sg (rn_cmp_q x r.lo) >= 0 && sg (rn_cmp_q x r.hi) <= 0
+                | Encl (l, h) -> q_le r.lo h && q_le l r.hi) in
+           if timing then Printf.eprintf "  pe: reference %.2fs, parse+validate result %.2fs, compare %.2fs (%s)\n%!" (t2 -. t1) (t3 -. t2) (Sys.time () -. t3) o;
+           if not ok then fail "%s: lp_polynomial_evaluate gives %s, reference value %s" what o (show_pval e);
            (* repeated on an unchanged pool: exactly the same number *)
            let key = Array.to_list (Array.map (fun s -> s.vid) pool) in
+           if not huge then
            (match List.find_opt (fun (k', key', _) -> k' = k && key' = key) !evals_seen with
             | Some (_, _, v0) -> if sg (some (rn_cmp fuel v0 r.v)) <> 0 then fail "%s: evaluation repeated on an unchanged pool gives another value: %s" what o
             | None -> evals_seen := (k, key, r.v) :: !evals_seen);
@@ -403,8 +444,13 @@ let run (toks : string list) (cout : string list) : string =
          | _ -> fail "unknown op %s" optok);
         (* ---- representations after the operation *)
         expect "|";
+        let tk = ref (Sys.time ()) in
+        let tick name = if timing then begin let t = Sys.time () in if t -. !tk > 0.5 then Printf.eprintf "  %s %.2fs\n%!" name (t -. !tk); tk := t end in
+        tick "op";
         let after = read_reps () in
+        tick "parse+validate reps";
         check_reps what after;
+        tick "denotation of reps";
         check_narrow what before after !assigned;
         !after_check after;
         (match !predict with
@@ -437,12 +483,16 @@ let run (toks : string list) (cout : string list) : string =
         for i = 0 to ns - 1 do List.iter (fun q ->
             let o = next () in let e = sg (rn_cmp_q pool.(i).x q) in
             if o <> string_of_int e then fail "%s: cmp(slot %d, %s) is %s, reference %d" bwhat i (string_of_rat q) o e) batq done;
+        tick "battery";
         expect "|";
         let after2 = read_reps () in
+        tick "parse+validate reps after battery";
         check_reps bwhat after2;
+        tick "denotation after battery";
         check_narrow bwhat after after2 [];
         if timing then Printf.eprintf "step %d %s %.2fs\n%!" !step optok (Sys.time () -. t0);
         reps := after2) ops;
+    (match !out with "$" :: rest -> out := rest; check_untouched "end of the history" | _ -> fail "C output ends early");
     (match !out with
      | [] -> ()
      | ["LEAK"] -> fail "memory was leaked during the history (LeakSanitizer): something remembered was never released"
@@ -452,5 +502,6 @@ let run (toks : string list) (cout : string list) : string =
   | Fail m ->
     let pre = "step " ^ string_of_int !step ^ " (" ^ !cur_op ^ ")" in
     if String.length m >= 5 && String.sub m 0 5 = "step " then "CHECK fail " ^ m else "CHECK fail " ^ pre ^ ": " ^ m
+  | Skip m -> "SKIP " ^ m
   | Fuel -> "FUEL at step " ^ string_of_int !step ^ " (" ^ !cur_op ^ ")"
   | Bad_value m -> "CHECK fail step " ^ string_of_int !step ^ " (" ^ !cur_op ^ "): " ^ m
